@@ -196,3 +196,80 @@ package main
 //@   modifies inferred
 //@   loop 1
 //@     invariant seen_clean: forall s *Session :: #seen[s] && (s in t.sessions) && s != nil && s.multi == nil ==> t.sessions[s].uid != uid
+
+// ---------------------------------------------------------------------------------------------
+// C11: sessions act only within their handshake / authentication state.
+// The request handlers state what dispatch must have established before it may call them.
+// ---------------------------------------------------------------------------------------------
+//@ spec func actsAsSelfOrRoot(s *Session, msg *ClientComMessage) bool { return s.authLvl == auth.LevelRoot || (msg.AsUser == userIdText(s.uid) && msg.AuthLvl == int(s.authLvl)) }
+
+//@ func (s *Session) publish(msg *ClientComMessage)
+//@   trusted
+//@   requires [C11] handshake: s.ver != 0
+//@   requires [C11] logged_in: msg.AsUser != ""
+//@   requires [C11] identity:  actsAsSelfOrRoot(s, msg)
+//@   modifies *
+//@ func (s *Session) subscribe(msg *ClientComMessage)
+//@   trusted
+//@   requires [C11] handshake: s.ver != 0
+//@   requires [C11] logged_in: msg.AsUser != ""
+//@   requires [C11] identity:  actsAsSelfOrRoot(s, msg)
+//@   modifies *
+//@ func (s *Session) leave(msg *ClientComMessage)
+//@   trusted
+//@   requires [C11] handshake: s.ver != 0
+//@   requires [C11] logged_in: msg.AsUser != ""
+//@   requires [C11] identity:  actsAsSelfOrRoot(s, msg)
+//@   modifies *
+//@ func (s *Session) get(msg *ClientComMessage)
+//@   trusted
+//@   requires [C11] handshake: s.ver != 0
+//@   requires [C11] logged_in: msg.AsUser != ""
+//@   requires [C11] identity:  actsAsSelfOrRoot(s, msg)
+//@   modifies *
+//@ func (s *Session) set(msg *ClientComMessage)
+//@   trusted
+//@   requires [C11] handshake: s.ver != 0
+//@   requires [C11] logged_in: msg.AsUser != ""
+//@   requires [C11] identity:  actsAsSelfOrRoot(s, msg)
+//@   modifies *
+//@ func (s *Session) del(msg *ClientComMessage)
+//@   trusted
+//@   requires [C11] handshake: s.ver != 0
+//@   requires [C11] logged_in: msg.AsUser != ""
+//@   requires [C11] identity:  actsAsSelfOrRoot(s, msg)
+//@   modifies *
+//@ func (s *Session) acc(msg *ClientComMessage)
+//@   trusted
+//@   requires [C11] handshake: s.ver != 0
+//@   requires [C11] identity:  actsAsSelfOrRoot(s, msg)
+//@   modifies *
+//@ func (s *Session) note(msg *ClientComMessage)
+//@   trusted
+//@   requires [C11] identity:  actsAsSelfOrRoot(s, msg)
+//@   modifies *
+
+//@ func (s *Session) dispatch(msg *ClientComMessage)
+//@   requires [C11] s != nil && msg != nil
+//@   modifies *
+
+// {hi}: the version is set once and only to a supported one.
+//@ func (s *Session) hello(msg *ClientComMessage)
+//@   requires [C11] s != nil && msg != nil && msg.Hi != nil
+//@   modifies inferred
+//@   ensures [C11] version_fixed: old(s.ver) != 0 ==> s.ver == old(s.ver)
+//@   ensures [C11] supported_only: old(s.ver) == 0 && s.ver != 0 ==> versionCompare(s.ver, minSupportedVersionValue) >= 0
+
+// {login}: a session logs in at most once; any failure leaves it unauthenticated.
+//@ func (s *Session) login(msg *ClientComMessage)
+//@   requires [C11] s != nil && msg != nil && msg.Login != nil && s.ver != 0
+//@   modifies inferred
+//@   ensures [C11] login_once: old(s.uid) != types.ZeroUid ==> s.uid == old(s.uid) && s.authLvl == old(s.authLvl)
+//@   assert at call onLogin [C11] only_after_success: err == nil && challenge == nil && rec != nil && rec.State == types.StateOK && s.uid == types.ZeroUid
+
+//@ func (s *Session) onLogin(msgID string, timestamp time.Time, rec *auth.Rec, missing []string) (reply *ServerComMessage)
+//@   requires [C11] s != nil && rec != nil
+//@   modifies inferred
+//@   ensures [C11] pending_creds: len(missing) > 0 ==> s.uid == old(s.uid) && s.authLvl == old(s.authLvl)
+//@   ensures [C11] nologin: (old(rec.Features) & auth.FeatureNoLogin) != 0 ==> s.uid == old(s.uid) && s.authLvl == old(s.authLvl)
+//@   ensures [C11] identity: s.uid != old(s.uid) || s.authLvl != old(s.authLvl) ==> s.uid == old(rec.Uid) && s.authLvl == old(rec.AuthLevel)
